@@ -449,7 +449,12 @@ pub fn run(ctx: &Ctx) -> i32 {
         all_fix &= !st.capped;
         per_cfg.push(stats_json(name, &st));
     }
+    // ---- labelled sampling supplement (never decides alone): long seeded random histories over a
+    // larger namespace ({a,b,c}, depth 3), every step compared with RefFs like the exhaustive part
+    let (walks, walk_steps) = random_walks(ctx);
     let cov = J::obj([
+        ("sampling_supplement_random_walks", J::i(walks)),
+        ("sampling_supplement_random_walk_steps", J::i(walk_steps)),
         ("states", J::i(states)),
         ("transitions", J::i(trans)),
         ("traces_validated_against_impl", J::i(trans)),
@@ -472,6 +477,69 @@ pub fn run(ctx: &Ctx) -> i32 {
             "state identity = 128-bit hash of the complete canonical dump".into(),
         ],
     })
+}
+
+fn random_op(rng: &mut Rng, ns: &[String]) -> Op {
+    let p = |rng: &mut Rng| ns[rng.below(ns.len() as u64) as usize].clone();
+    let data = [b"x".to_vec(), b"".to_vec(), "é\n".as_bytes().to_vec(), b"yy".to_vec()];
+    match rng.below(16) {
+        0 => Op::Mkfile(p(rng)),
+        1 => Op::MkdirP(p(rng)),
+        2 => Op::MkdirM(p(rng), 0o700),
+        3 => Op::WriteAll(p(rng), data[rng.below(4) as usize].clone()),
+        4 => Op::AppendAll(p(rng), data[rng.below(4) as usize].clone()),
+        5 => Op::Remove(p(rng)),
+        6 => Op::RemoveAll(p(rng)),
+        7 | 8 => Op::MoveP(p(rng), p(rng)),
+        9 | 10 => Op::Copy(p(rng), p(rng)),
+        11 => Op::Symlink(p(rng), p(rng)),
+        12 => Op::SetCwd(p(rng)),
+        13 => Op::Chmod(p(rng), [0o600, 0o755, 0o640][rng.below(3) as usize]),
+        14 => Op::Chown(p(rng), 5 + rng.below(2) as u32, 7),
+        _ => Op::MkfileM(p(rng), 0o640),
+    }
+}
+
+fn random_walks(ctx: &Ctx) -> (u64, u64) {
+    let mut ns = namespace(&["a", "b", "c"], 3);
+    ns.extend(["a", "./b", "../c", "b/c", "/a//b", "/zz"].iter().map(|x| x.to_string()));
+    let walks = ctx.tier.pick(48u64, 3200u64);
+    let steps = AtomicU64::new(0);
+    par_for(ctx.threads, walks, 1, |_slot, wi| {
+        let mut rng = Rng(ctx.seed ^ (0xC01 * (wi + 1)));
+        let fs = Memfs::new();
+        let mut hist: Vec<String> = vec![];
+        for _ in 0..300 {
+            let op = random_op(&mut rng, &ns);
+            let d0 = fs.verif_dump();
+            let pre = match abs_of(&d0) {
+                Ok(p) => p,
+                Err(_) => break,
+            };
+            let pred = reffs::step(&pre, &op);
+            let out = apply(&fs, &op);
+            hist.push(op.render());
+            steps.fetch_add(1, Ordering::Relaxed);
+            let d1 = fs.verif_dump();
+            let broken = crate::models::invariants::check(&d1);
+            let post = if broken.is_empty() { abs_of(&d1) } else { Err(broken[0].1.clone()) };
+            if !out.ok && single_target(&op) && d1 != d0 {
+                let sig = format!("C01 {} failed-but-changed-state [{}]", op.name(), arg_class(&pre, &op));
+                let h = hist.clone();
+                vio(&sig, || format!("random history {:?}: the last call failed with {} but the state changed", h, out.brief()), || J::obj([("random_history", J::strs(hist.iter()))]));
+            }
+            if let Some((class, detail)) = compare(&pred, &out, &pre, &post) {
+                let sig = format!("C01 {} {} [{}]", op.name(), class, arg_class(&pre, &op));
+                let h = hist.clone();
+                vio(&sig, || format!("random history {:?} (tree before the last call: {}; cwd {}): {} returned {}: {}", h, pre.tree.render(), pre.cwd, op.render(), out.brief(), detail), || J::obj([("random_history", J::strs(hist.iter()))]));
+                break;
+            }
+            if post.is_err() || pre.tree.nodes.len() > 24 {
+                break;
+            }
+        }
+    });
+    (walks, steps.load(Ordering::Relaxed))
 }
 
 pub fn replay_history(cfg: &SpaceCfg, case: &J) -> Option<(Memfs, Vec<usize>)> {
